@@ -351,12 +351,15 @@ fn level1(ctx: &mut Ctx) {
         ("big", if slow { 4 } else { tier.pick(1_500, 60_000) }),
         ("havoc", if slow { 30 } else { tier.pick(150_000, 6_000_000) }),
     ];
+    // the budget test counts this shard's own cases (a test on idx would only ever fire in shard 0)
+    let mut done = 0u64;
     for (family, n) in plan {
         for idx in 0..n {
             if !ctx.take(family, idx) {
                 continue;
             }
-            if idx % 2048 == 0 && ctx.time_up() {
+            done += 1;
+            if done % 512 == 0 && ctx.time_up() {
                 ctx.notes.push(format!("{} stopped at {} of {} (time budget)", family, idx, n));
                 break;
             }
